@@ -601,13 +601,45 @@ def _into_iter_generic(m, st, callee, args, t):
     return None
 
 
+def _innermost_ref(m, st, r):
+    """Follow `&mut &mut … It` down to the reference that points at the iterator value itself."""
+    while isinstance(r, Ref):
+        v = m.load(st, r.loc)
+        if isinstance(v, Ref):
+            r = v
+        else:
+            return r, v
+    return r, r
+
+
 @model("core::iter::traits::iterator::Iterator::next")
 def _next_generic(m, st, callee, args, t):
-    it = deref(m, st, args[0])
+    ref, it = _innermost_ref(m, st, args[0])
     if isinstance(it, Opq) and it.kind == "chars":
-        return m.world.chars_next(m, st, args[0])
+        return m.world.chars_next(m, st, ref)
     if isinstance(it, Opq) and it.kind == "enumerate":
-        return m.world.enumerate_next(m, st, args[0])
+        return m.world.enumerate_next(m, st, ref)
+    if isinstance(it, Opq) and it.kind == "char_indices":
+        return m.world.char_indices_next(m, st, ref)
+    if isinstance(it, Opq) and it.kind == "skip":
+        h = getattr(m.world, "skip_next", None)
+        if h is not None:
+            return h(m, st, ref)
+    if isinstance(it, Opq) and it.kind == "slice-iter":
+        return _slice_iter_next(m, st, callee, args, t)
+    if isinstance(it, Opq) and it.kind == "map":
+        inner, f = it.data
+        # the inner iterator lives inside the adaptor value: step it through a reference to that field
+        r = _next_generic(m, st, callee, [Ref(m._sub(ref.loc, ("opq", 0)))], t) if isinstance(ref, Ref) else None
+        if r is None or isinstance(r, Outcome):
+            return r
+        r = need_adt(m, st, r, "Map::next")
+        if r.variant == 0:
+            return none()
+        return _with_post(m, st, f, [r.fields[0]], t, lambda mm, ss, v: some(v))
+    h = getattr(m.world, "iter_next", None)
+    if h is not None:
+        return h(m, st, ref, it)
     return None
 
 
@@ -751,4 +783,178 @@ def pattern_model(path):
     for rx, h in PATTERN_MODELS:
         if rx.match(path):
             return h
+    return None
+
+
+# ------------------------------------------------------------------------------- generic Try (inside std generics)
+def coerce_try_output(v, ty):
+    """`R::from_output(x)` produced in generic std code, once the concrete R is known from a type string."""
+    if isinstance(v, Opq) and v.kind == "from_output":
+        x = v.data[0]
+        if ty.startswith(RESULT):
+            return ok(x)
+        if ty.startswith(OPTION):
+            return some(x)
+        if ty.startswith(CONTROLFLOW):
+            return Adt(CONTROLFLOW, 0, (x,))
+    return v
+
+
+@model("core::ops::try_trait::Try::branch")
+def _try_branch_generic(m, st, callee, args, t):
+    v = args[0]
+    if isinstance(v, Sym):
+        v = m.concretize(st, v)
+    if isinstance(v, Opq) and v.kind == "from_output":
+        return Adt(CONTROLFLOW, 0, (v.data[0],))
+    if isinstance(v, Adt) and v.ty == RESULT:
+        return _res_branch(m, st, callee, [v], t)
+    if isinstance(v, Adt) and v.ty == OPTION:
+        return _opt_branch(m, st, callee, [v], t)
+    if isinstance(v, Adt) and v.ty == CONTROLFLOW:
+        payload = v.fields[0] if v.fields else UNIT  # constants of ControlFlow<()> carry no explicit payload
+        if v.variant == 0:
+            return Adt(CONTROLFLOW, 0, (payload,))
+        return Adt(CONTROLFLOW, 1, (Adt(CONTROLFLOW, 1, (payload,)),))
+    return None
+
+
+@model("<core::ops::control_flow::ControlFlow<B, C> as core::ops::try_trait::Try>::branch")
+def _cf_branch(m, st, callee, args, t):
+    return _try_branch_generic(m, st, callee, args, t)
+
+
+@model("core::ops::try_trait::Try::from_output")
+def _from_output_generic(m, st, callee, args, t):
+    return Opq("from_output", (args[0],))
+
+
+@model("<core::result::Result<T, E> as core::ops::try_trait::Try>::from_output")
+def _res_from_output(m, st, callee, args, t):
+    return ok(args[0])
+
+
+@model("<core::option::Option<T> as core::ops::try_trait::Try>::from_output")
+def _opt_from_output(m, st, callee, args, t):
+    return some(args[0])
+
+
+@model("<core::ops::control_flow::ControlFlow<B, C> as core::ops::try_trait::Try>::from_output")
+def _cf_from_output(m, st, callee, args, t):
+    return Adt(CONTROLFLOW, 0, (args[0],))
+
+
+@model("core::ops::try_trait::FromResidual::from_residual", "<core::ops::control_flow::ControlFlow<B, C> as core::ops::try_trait::FromResidual<core::ops::control_flow::ControlFlow<B, core::convert::Infallible>>>::from_residual")
+def _from_residual_generic(m, st, callee, args, t):
+    r = args[0]
+    if isinstance(r, Adt) and r.ty == RESULT:
+        return err(r.fields[0])
+    if isinstance(r, Adt) and r.ty == OPTION:
+        return none()
+    if isinstance(r, Adt) and r.ty == CONTROLFLOW:
+        return Adt(CONTROLFLOW, 1, (r.fields[0],))
+    return None
+
+
+def _structural_eq(m, st, a, b):
+    a = deref_all(m, st, a)
+    b = deref_all(m, st, b)
+    if isinstance(a, Sym) and a.ty not in ("bool",) and not a.ty in __import__("pv.interp", fromlist=["INT_BITS"]).INT_BITS:
+        a = m.concretize(st, a)
+    if isinstance(b, Sym) and b.ty not in ("bool",) and not b.ty in __import__("pv.interp", fromlist=["INT_BITS"]).INT_BITS:
+        b = m.concretize(st, b)
+    if isinstance(a, Adt) and isinstance(b, Adt):
+        if a.variant != b.variant:
+            return False
+        if len(a.fields) != len(b.fields):
+            # a constant of an enum with a zero-sized payload is exported without the payload
+            fa = [x for x in a.fields if x != UNIT]
+            fb = [x for x in b.fields if x != UNIT]
+            if fa or fb:
+                return False
+            return True
+        return all(_structural_eq(m, st, x, y) for x, y in zip(a.fields, b.fields))
+    if isinstance(a, Tup) and isinstance(b, Tup):
+        return len(a.fields) == len(b.fields) and all(_structural_eq(m, st, x, y) for x, y in zip(a.fields, b.fields))
+    if isinstance(a, Str) and isinstance(b, Str):
+        return m.world.str_eq(st, a, b)
+    if _scalar(a) and _scalar(b):
+        return compare(st, "Eq", a, b, m.world)
+    raise AnalysisError("structural equality of %r and %r" % (a, b))
+
+
+def _derived_eq(neg):
+    def f(m, st, callee, args, t):
+        r = _structural_eq(m, st, args[0], args[1])
+        return boolean((not r) if neg else r)
+
+    return f
+
+
+for _t in ("core::ops::control_flow::ControlFlow<B, C>", "core::option::Option<T>", "core::result::Result<T, E>", "core::cmp::Ordering"):
+    MODELS["<%s as core::cmp::PartialEq>::eq" % _t] = _derived_eq(False)
+    MODELS["<%s as core::cmp::PartialEq>::ne" % _t] = _derived_eq(True)
+
+
+@model("core::iter::traits::iterator::Iterator::map")
+def _iter_map(m, st, callee, args, t):
+    return Opq("map", (args[0], args[1]))
+
+
+@model("<core::iter::adapters::map::Map<I, F> as core::iter::traits::iterator::Iterator>::next")
+def _map_next(m, st, callee, args, t):
+    return _next_generic(m, st, callee, args, t)
+
+
+@model("core::iter::traits::iterator::Iterator::rev")
+def _iter_rev(m, st, callee, args, t):
+    h = getattr(m.world, "iter_rev", None)
+    if h is not None:
+        return h(m, st, args[0])
+    return None
+
+
+@model("core::iter::traits::iterator::Iterator::by_ref")
+def _by_ref(m, st, callee, args, t):
+    return args[0]
+
+
+# ------------------------------------------------------------------------------- value-preserving conversions
+@model("core::char::convert::<impl core::convert::From<char> for u32>::from", "core::char::convert::<impl core::convert::From<u8> for char>::from", "core::convert::num::<impl core::convert::From<u8> for u32>::from", "core::convert::num::<impl core::convert::From<u16> for u32>::from", "core::convert::num::<impl core::convert::From<u32> for u64>::from", "core::convert::num::<impl core::convert::From<u32> for usize>::from")
+def _widening_from(m, st, callee, args, t):
+    fr = st.frames[-1]
+    to_ty = fr.body.locals[t["dest"]["l"]]["ty"] if not t["dest"]["p"] else "u32"
+    v = args[0]
+    return m.cast(st, "IntToInt", v, getattr(v, "ty", "u32"), to_ty)
+
+
+# ------------------------------------------------------------------------------- slices / arrays with known elements
+@model("core::slice::<impl [T]>::iter")
+def _slice_iter(m, st, callee, args, t):
+    v = deref_all(m, st, args[0])
+    if isinstance(v, Opq) and v.kind == "array":
+        return Opq("slice-iter", (v, 0))
+    if isinstance(v, Opq) and v.kind == "static":
+        arr = m.world.static_array(m, st, v.data[0]) if hasattr(m.world, "static_array") else None
+        if arr is not None:
+            return Opq("slice-iter", (arr, 0))
+    h = getattr(m.world, "slice_iter", None)
+    if h is not None:
+        return h(m, st, args[0], v)
+    return None
+
+
+@model("<core::slice::iter::Iter<'a, T> as core::iter::traits::iterator::Iterator>::next")
+def _slice_iter_next(m, st, callee, args, t):
+    ref, it = _innermost_ref(m, st, args[0])
+    if isinstance(it, Opq) and it.kind == "slice-iter" and isinstance(it.data[0], Opq) and it.data[0].kind == "array":
+        arr, i = it.data
+        elems = arr.data
+        if i >= len(elems):
+            return none()
+        m.store(st, ref.loc, Opq("slice-iter", (arr, i + 1)))
+        return some(Ref(("val", elems[i])))
+    h = getattr(m.world, "iter_next", None)
+    if h is not None:
+        return h(m, st, ref, it)
     return None
